@@ -170,7 +170,8 @@ class Signal(np.lib.mixins.NDArrayOperatorsMixin):
         kw = dict()
         if s.step > 1:
             kw["sample_rate"] = self.sample_rate / s.step
-        if self.start_time is not None:
+        if self.start_time is not None and s.start != 0:
+            # (adding zero seconds to a UTC time is not always bit-exact)
             kw["start_time"] = self.start_time + s.start / self.sample_rate
         return kw
 
